@@ -10,7 +10,8 @@
    2022 ggsw_rotate / 2023 ggsw_rotate_assign:
        ps = be n scr k | rb rrank rsize rdnum rdsize | ab arank asize adnum adsize | srank   vs = res ; a ; secret   out = res'
    2030 (exact operations only) / 2031 (any operation): straight-line program over a register file
-       ps = be n scr base2k nregs nops srank | (rank size)*nregs | (opc d x y k)*nops          vs = regs... ; secret   out = regs'... *)
+       ps = be n scr base2k nregs nops srank | (rank size)*nregs | (opc d x y k)*nops          vs = regs... ; secret
+       out (2030) = regs'...        out (2031) = the destination register after each step (nops vectors) *)
 From PV Require Import Base.MachineInt Model.Znx Model.Limbs Model.Flat Model.Ring Model.DftAbs Model.C02Ops.
 Open Scope Z_scope.
 
@@ -81,10 +82,17 @@ Definition run_c02 (code : Z) (ps : list Z) (vs : list (list Z)) : option (list 
     if ggsw_ok ps vs 0 then
       match ggsw_rotate_assign n scr k (mk_ggsw ps vs 0) with Some g => Some [flat_of_ggsw g] | None => None end
     else None
-  else if (code =? 2030) || (code =? 2031) then
+  else if code =? 2030 then
     if prog_regs_ok ps vs then
       match run_prog n scr (prog_of ps) (prog_regs ps vs) with
       | Some regs => Some (map flat_of_glwe regs)
+      | None => None
+      end
+    else None
+  else if code =? 2031 then
+    if prog_regs_ok ps vs then
+      match run_prog_trace n scr (prog_of ps) (prog_regs ps vs) with
+      | Some tr => Some (map flat_of_glwe tr)
       | None => None
       end
     else None
@@ -125,7 +133,7 @@ Definition oracle_value (n : nat) (s : list (list Z)) (rb ab off keep sgn : Z) (
   let R := VP P rb n s out in let R0 := VP P rb n s res in let A := VP (P + off) ab n s a in
   let unit := 2 ^ (P - rsz * rb) in
   let exact := asz * ab - off <=? rsz * rb in
-  let used := Nat.min (g_rank out) (length s) in
+  let used := Nat.min (g_rank a) (length s) in   (* only columns that `a` has can be truncated *)
   let bound := if exact then 0 else unit * (1 + fold_left (fun acc i => acc + l1 (nth i s [])) (seq 0 used) 0) in
   obz (Nat.eqb (g_size out) (g_size res) && Nat.eqb (g_ncols out) (g_ncols res) &&
        forallb (fun t => tor_dist P (nthZ R t - keep * nthZ R0 t - sgn * nthZ A t) <=? bound) (seq 0 n)).
@@ -177,4 +185,19 @@ Definition oracle_c02 (code : Z) (ps : list Z) (vs outs : list (list Z)) : Z :=
     let expect := pt_prog n (prog_of ps) (map (phase n s) regs) in
     obz (Nat.eqb (length expect) nregs &&
          forallb (fun q => eq_plimbs (phase n s (fst q)) (snd q)) (combine outs_g expect))
+  else if code =? 2031 then
+    (* step by step on the implementation's own states: each step must satisfy its statement
+       (exact limb-wise phase equality, or the value statement for shift / normalise) *)
+    let nregs := pn ps 4 in
+    let s := sec_of n (pn ps 6) (vv vs nregs) in
+    let prog := prog_of ps in
+    if negb (Nat.eqb (length outs) (length prog)) then 0 else
+    min_verdict (fst (fold_left (fun (st : list Z * list glwe) (q : instr * list Z) =>
+        let '(vds, regs) := st in let '(ins, o) := q in
+        let res := reg regs (i_d ins) in
+        if negb (flat_ok n (g_rank res) (g_size res) o) then (vds ++ [0], regs) else
+        let out := mk_glwe (g_b res) n (g_rank res) (g_size res) o in
+        (vds ++ [oracle_op n s (i_op ins) (i_k ins) res (reg regs (i_x ins)) (reg regs (i_y ins)) out],
+         set_nth regs (i_d ins) out))
+      (combine prog outs) ([], prog_regs ps vs)))
   else 2.
